@@ -61,6 +61,37 @@ func readFiles(dir string) map[string][]byte {
 }
 
 // plaintextLeak looks for an 8-byte window of value v inside blob.
+type fileBlob struct {
+	path string
+	blob []byte
+}
+
+// readOne finds the file that changes when key is deleted and set again
+// (no knowledge of the file-name mapping needed).
+func readOne(dir string, files map[string][]byte, key string, conn driver.Conn) (fileBlob, error) {
+	v, err := conn.Get(key)
+	if err != nil {
+		return fileBlob{}, err
+	}
+	if err := conn.Delete(key); err != nil {
+		return fileBlob{}, err
+	}
+	gone := ""
+	now := readFiles(dir)
+	for p := range files {
+		if _, ok := now[p]; !ok {
+			gone = p
+		}
+	}
+	if err := conn.Set(key, v); err != nil {
+		return fileBlob{}, err
+	}
+	if gone == "" {
+		return fileBlob{}, nil
+	}
+	return fileBlob{path: gone, blob: readFiles(dir)[gone]}, nil
+}
+
 func plaintextLeak(blob, v []byte) (int, bool) {
 	if len(v) < 8 {
 		if len(v) >= 4 && bytes.Contains(blob, v) {
@@ -141,7 +172,8 @@ func TestC17Confidential(t *testing.T) {
 		}
 		files := readFiles(dir)
 		r.AddEvaluations(len(files))
-		bySameValue := map[string]string{}
+		byContent := map[string]string{}
+		prefixFiles := map[string][]string{}
 		for p, blob := range files {
 			for _, kv := range vals {
 				if off, leak := plaintextLeak(blob, kv.v); leak {
@@ -150,19 +182,36 @@ func TestC17Confidential(t *testing.T) {
 				}
 			}
 			if len(blob) >= 12 {
-				nk := string(blob[:12])
-				if prev, dup := nonces[nk]; dup && prev != p {
-					r.Violation("nonce-reused", fmt.Sprintf("concurrent=%v", concurrent), fmt.Sprintf("two files start with the same 12-byte nonce %x (%s, %s)", blob[:12], filepath.Base(prev), filepath.Base(p)), nil)
-				}
-				nonces[nk] = p
+				prefixFiles[string(blob[:12])] = append(prefixFiles[string(blob[:12])], p)
 			}
-			if len(blob) == len(same)+28 {
-				body := string(blob)
-				if prev, dup := bySameValue[body]; dup {
-					r.Violation("deterministic-ciphertext", fmt.Sprintf("concurrent=%v", concurrent), fmt.Sprintf("two writes of the same value produced identical file bytes (%s, %s)", filepath.Base(prev), filepath.Base(p)), nil)
-				}
-				bySameValue[body] = p
+			// whatever the layout: no two files may be byte-identical (the same
+			// value is written many times, to the same and to different keys)
+			if prev, dup := byContent[string(blob)]; dup && prev != p {
+				r.Violation("deterministic-ciphertext", fmt.Sprintf("concurrent=%v", concurrent), fmt.Sprintf("two writes produced identical file bytes (%s, %s)", filepath.Base(prev), filepath.Base(p)), nil)
 			}
+			byContent[string(blob)] = p
+		}
+		// a 12-byte prefix shared by some files but not by all of them is a
+		// repeated nonce (a prefix common to every file would be a constant
+		// header of another layout: not judged)
+		for nk, ps := range prefixFiles {
+			if prev, seen := nonces[nk]; seen && prev != ps[0] {
+				ps = append(ps, prev)
+			}
+			nonces[nk] = ps[0]
+			if len(ps) >= 2 && len(ps) < len(files) {
+				r.Violation("nonce-reused", fmt.Sprintf("concurrent=%v", concurrent), fmt.Sprintf("%d of %d files start with the same 12 bytes %x (%s, %s)", len(ps), len(files), nk, filepath.Base(ps[0]), filepath.Base(ps[1])), nil)
+			} else if len(ps) >= 2 {
+				r.Count("constant_prefix_layout_not_judged", 1)
+			}
+		}
+		// the same value written again to the same key: the file changes
+		if before, err := readOne(dir, files, vals[0].k, conn); err == nil {
+			conn.Set(vals[0].k, vals[0].v)
+			if after := readFiles(dir); before.path != "" && bytes.Equal(after[before.path], before.blob) {
+				r.Violation("deterministic-ciphertext", fmt.Sprintf("rewrite,concurrent=%v", concurrent), fmt.Sprintf("writing the same value to the same key again left the file bytes unchanged (%s)", filepath.Base(before.path)), nil)
+			}
+			r.Count("same_key_rewrites_compared", 1)
 		}
 		// read back through every configuration: same key source => same plaintext
 		for _, other := range encConfigs {
@@ -275,6 +324,11 @@ func TestC17Tamper(t *testing.T) {
 		for k := 0; k < 20; k++ {
 			cases = append(cases, tcase{sz, "multi-edit", k, 0})
 		}
+		// every byte replaced at once: the file of another entry, written with
+		// the same encryption key (same or other length), put in its place
+		for _, osz := range []int{sz, sz + 5, 3} {
+			cases = append(cases, tcase{sz, "replace-with-other-entry", 0, osz})
+		}
 	}
 	for k := 0; k < 40; k++ {
 		cases = append(cases, tcase{1 << 20, "flip", -1, k})
@@ -353,6 +407,21 @@ func TestC17Tamper(t *testing.T) {
 			copy(mod[c.Pos+16:], a)
 			if bytes.Equal(mod, o) {
 				continue
+			}
+		case "replace-with-other-entry":
+			d2 := ScratchDir()
+			c2, err := Backend("fsaes", d2)
+			if err == nil {
+				err = c2.Set("http://a.example/other#0", MakeValue("other", c.Arg, true))
+			}
+			fs2 := readFiles(d2)
+			os.RemoveAll(d2)
+			if err != nil || len(fs2) != 1 {
+				r.Inconclusive("cannot produce the other entry")
+				continue
+			}
+			for _, b := range fs2 {
+				mod = b
 			}
 		case "multi-edit":
 			for e := 0; e < 2+rng.IntN(5); e++ {
